@@ -3,6 +3,7 @@ From Saml Require Import Base.Bytes Idp.FactTypes Gen.Facts Gen.Pure Idp.Sso Idp
 Record aq_obs := { ao_kind : Z; ao_irt : bytes; ao_issuer : bytes; ao_audience : bytes; ao_nameid : bytes; ao_attrs : list attr }.
 Record aq_case := { ac_id : Z; ac_dec : option aquery; ac_sp : option sp_rec; ac_verify : bool; ac_locs : list bytes; ac_user : option user;
                     ac_cert1 : bool; ac_cert2 : bool; ac_sign : bool; ac_eid : bytes; ac_obs : aq_obs;
+                    ac_spdoc : option rnode;
                     ac_doc : option (bool * rnode)  (* the request body as Go's tokenizer resolves it *) }.
 Definition aq_model (k : aq_case) : aoutcome :=
   attrquery_handler (ac_dec k) (fun _ => ac_sp k) (fun _ => ac_verify k) (ac_locs k) (fun _ => ac_user k) (ac_cert1 k) (ac_cert2 k) (ac_sign k) (ac_eid k) attrquery_steps.
@@ -21,6 +22,6 @@ Definition aq_obs_eqb (x y : aq_obs) : bool :=
 (** the abstract query of the case is what the model of DecodeAttributeQuery makes of the body *)
 Definition aq_doc_ok (k : aq_case) : bool :=
   match ac_doc k with Some (trailing, doc) => option_eqb aquery_eqb (aquery_of_doc trailing doc) (ac_dec k) | None => true end.
-Definition aq_ok (k : aq_case) : bool := aq_obs_eqb (aq_project (aq_model k)) (ac_obs k) && aq_doc_ok k.
+Definition aq_ok (k : aq_case) : bool := aq_obs_eqb (aq_project (aq_model k)) (ac_obs k) && aq_doc_ok k && sp_doc_ok (ac_sp k) (ac_spdoc k).
 Definition aq_bad (ks : list aq_case) : list Z := map ac_id (filter (fun k => negb (aq_ok k)) ks).
 Definition aq_predict (k : aq_case) := aq_project (aq_model k).
